@@ -217,7 +217,7 @@ func main() {
 	}
 	debug.SetGCPercent(400) // allocation-heavy code under test (JSON hashing); fewer GC cycles
 	r := vf.NewRun("C29", "exploration",
-		"chain configs from the real GenesisChainConfig (N 4..40, C 1..(N-1)/3, K=N, L=K*2..16, 8 stake shapes, contiguous/scattered peer indices) plus hand-made valid tables (single peer, two peers, exactly 3C distinct, very short, >512 entries); per config a list of VRF seeds (zero, all-ones, block-derived, sparse, random); distinct by (config digest, vrf)")
+		"chain configs from the real GenesisChainConfig (N 4..40, C 1..(N-1)/3, K=N, L=K*2..16, 8 stake shapes, contiguous/scattered peer indices) plus hand-made valid tables (single peer, two peers, exactly 3C distinct, very short, >512 entries); per config a list of VRF seeds (zero, all-ones, block-derived, sparse, random); distinct by (config digest, vrf); plus rounds started on a real Server (startNewRound) around a block carrying a NewChainConfig: old view / successor view pairs from the real GenesisChainConfig (7 kinds of change: view only, stakes, C, peers replaced, grown, shrunk, turnover), 4-5 (node configuration, previous block) stages per pair and seed, distinct by (stage, both config digests, height, vrf)")
 	rng := vf.NewRNG(vf.Seed())
 	nCfg := vf.N(500, 25000)
 	nVrf := vf.N(40, 80)
@@ -400,6 +400,9 @@ func main() {
 			r.Count("obs_seed_changes_with_triple")
 		}
 	}
+
+	// rounds around a block that announces a new chain configuration (round.go)
+	runConfigChange(r, rng)
 
 	for _, k := range []string{"cfg_gen_equal", "cfg_gen_zero", "cfg_gen_dominant", "cfg_gen_random", "cfg_gen_fewlarge", "cfg_gen_ties", "cfg_gen_roundedge", "cfg_gen_max",
 		"cfg_hand_single", "cfg_hand_two", "cfg_hand_3c", "cfg_hand_short", "cfg_hand_long"} {
